@@ -259,6 +259,22 @@ class SymKey(Model):
         return f"SymKey({self.tup.items})"
 
 
+class SymList(Model):
+    """`[None] * n` with symbolic n: a list of symbolic length whose stores are logged (index, value); reads are not supported."""
+
+    def __init__(self, n):
+        self.n = n
+        self.writes = []
+
+    def m_len(self, eng):
+        return SI(self.n)
+
+    def m_setitem(self, eng, key, value):
+        k = zi(key)
+        eng.oblige(f"list-index-in-range@{eng.site()}", z3.And(k >= 0, k < self.n))
+        self.writes.append((k, value))
+
+
 class ExcClass(Model):
     def __init__(self, name):
         self.name = name
@@ -1362,6 +1378,9 @@ class Engine:
                 c = l.items[0]
                 self.assume(r.e >= 0)
                 return STup([], SVec(z3.K(z3.IntSort(), z3.IntVal(c)), r.e), l.is_list)
+            if l.tail is None and len(l.items) == 1 and l.items[0] is None and l.is_list:
+                self.assume(r.e >= 0)
+                return SymList(r.e)
             raise Unsupported("repeat of tuple by symbolic count")
         concrete = all(isinstance(x, (int, float, Fraction)) for x in (l, r))
         if concrete:
